@@ -62,6 +62,13 @@ def judge(rep, descs, cases, out) -> None:
                 rep.violate(f"C10/null-not-none/{sig}", f"null for a nullable property decodes as {n.get('py', n['dec'])}", d=d, observed=n, schema=codec.schema_of(d))
             elif not n.get("enc_present") or n.get("enc") is not None:
                 rep.violate(f"C10/none-not-null/{sig}", f"None is encoded as {json.dumps(n.get('enc'))} (present={n.get('enc_present')})", d=d, observed=n)
+        # decoding never consumes the caller's payload (a second decode of the same dict sees the same members)
+        for w, r in rr.items():
+            if isinstance(r, dict) and r.get("dec") == "ok":
+                if r.get("src_unchanged") is False:
+                    rep.violate(f"C10/decode-mutates-payload/{'closed' if c.get('closed') else 'open'}-holder", f"from_dict changes the dict it is given (wire value {w})", d=d, w=w)
+                elif r.get("again_equal") not in (True, None):
+                    rep.violate(f"C10/second-decode-differs/{'closed' if c.get('closed') else 'open'}-holder", f"decoding the same dict twice gives {r.get('again_equal')} (wire value {w})", d=d, w=w)
         # a PRESENT value (also a falsy one: 0, "", False, {}, []) is neither absent nor null
         for i, w in enumerate(codec.WIRESEQ):
             if w in ("absent", "null") or not p["valid"][i] or w == "f10":
